@@ -14,7 +14,17 @@ for k in ks:
     except Exception:
         notes = {}
     files = re.findall(r"^\+\+\+ b/(\S+)", open(patch).read(), re.M)
-    checks = sorted({p["id"] for p in props for f in files if f in p["anchors"]["files"]} | ({notes.get("near")} if notes.get("near") else set()))
+    full = sorted({p["id"] for p in props for f in files if f in p["anchors"]["files"]} | ({notes.get("near")} if notes.get("near") else set()))
+    cap = int(os.environ.get("BENIGN_CAP", "0"))
+    if cap:
+        # time-boxed run: the 'near' property first, then the properties for which a touched file is a primary anchor
+        prim = [p["id"] for p in props for f in files if f in p["anchors"]["files"][:2]]
+        order = ([notes["near"]] if notes.get("near") else []) + prim + full
+        checks = sorted(list(dict.fromkeys(order))[:cap])
+    else:
+        checks = full
+    if os.path.exists("/verif/benign/%s-%s/meta.json" % (prefix, k)):
+        print(prefix, k, "already filed"); continue
     summary = (notes.get("summary", "") + (" [behaviour visible]" if notes.get("behaviour_visible") else ""))[:400]
     r = subprocess.run(["/venv/bin/python", "/verif/tools/benign_ingest.py", "%s-%s" % (prefix, k), patch, "--near", notes.get("near", ""), "--summary", summary, "--checks", ",".join(checks), "--jobs", "3"], capture_output=True, text=True)
     if "REJECT: patch does not apply" in r.stdout:
